@@ -212,7 +212,7 @@ pub fn c12(seed: u64, n: usize) {
         let last = *steps.last().unwrap();
         let park = Isometry3::from_parts(Translation3::from(last.translation.vector + Vector3::new(0.0, 0.0, 0.03)), last.rotation);
         // obstacle layouts: free, grazing (next to the stroke), blocking (plate across the stroke)
-        let layout = done % 3;
+        let layout = done % 4;
         let midp = land.translation.vector + dir * (len * 0.5);
         let side = dir.cross(&Vector3::z()).normalize();
         match layout {
@@ -222,10 +222,20 @@ pub fn c12(seed: u64, n: usize) {
                    let rotq = nalgebra::UnitQuaternion::rotation_between(&Vector3::y(), &dir).unwrap_or(nalgebra::UnitQuaternion::identity());
                    k.kws.body.collision_environment.push(CollisionBody { mesh: box_mesh([0.3, 0.004, 0.3], [0.0; 3], false),
                        pose: Isometry3::from_parts(Translation3::new(c.x, c.y, c.z), rotq).cast::<f32>() }); }
+            3 => {
+                // a small cube where the elbow (link 3) of the START branch passes mid-stroke: that branch lands and moves
+                // continuously but fails the final collision check; another branch has to be found
+                let mid_pose = Isometry3::from_parts(Translation3::from(midp), land.rotation);
+                if let Some(qm) = k.kws.inverse_continuing(&mid_pose, &q_land).first() {
+                    let e = k.kws.forward_with_joint_poses(qm)[2].translation.vector;
+                    k.kws.body.collision_environment.push(CollisionBody { mesh: box_mesh([0.03, 0.03, 0.03], [0.0; 3], false), pose: Isometry3::translation(e.x as f32, e.y as f32, e.z as f32) });
+                }
+            }
             _ => {}
         }
         if k.kws.body.safety.mode == rs_opw_kinematics::collisions::CheckMode::NoCheck { k.kws.body.safety.mode = rs_opw_kinematics::collisions::CheckMode::FirstCollisionOnly; }
         let mut from = q_land; for kk in 0..6 { from[kk] += r.range(-0.3, 0.3); }
+        if layout == 3 { from = q_land; }
         if k.kws.collides(&from) { continue; }
         done += 1;
         let include = r.chance(0.6);
@@ -237,7 +247,7 @@ pub fn c12(seed: u64, n: usize) {
             include_linear_interpolation: include, debug: false };
         let pools = [1usize, 2, 4, 16];
         let pool = pools[done % 4];
-        let fam = format!("plan/{}/{}", ["free", "grazing", "blocking"][layout], if include { "with-interp" } else { "no-interp" });
+        let fam = format!("plan/{}/{}", ["free", "grazing", "blocking", "branch-blocked"][layout], if include { "with-interp" } else { "no-interp" });
         let mut l = Line::new("C12", &fam, "plan");
         k.ks.encode(&mut l);
         l.j6(&from).iso(&land).n(steps.len()); for s in &steps { l.iso(s); } l.iso(&park);
@@ -253,6 +263,24 @@ pub fn c12(seed: u64, n: usize) {
             }
         }
         l.emit();
+        // planning failed: is there a landing branch that works on its own and can be reached from the start? then the
+        // planner has to find it, whichever strategy finishes first (decided only on repeated agreement: RRT is random)
+        if matches!(res, Some(Err(_))) {
+            let strategies = k.kws.inverse_continuing(&land, &from);
+            let mut exists = false;
+            for s in strategies.iter().take(8) {
+                let alone = (0..2).all(|_| planner.plan(s, &land, steps.clone(), &park).is_ok());
+                if !alone { continue; }
+                let stop = AtomicBool::new(false);
+                let reach = (0..2).all(|_| planner.rrt.plan_rrt(&from, s, &k.kws, &stop).is_ok());
+                if reach { exists = true; break; }
+            }
+            let retries: Vec<bool> = (0..3).map(|_| in_pool2(pool, || planner.plan(&from, &land, steps.clone(), &park).is_ok())).collect();
+            let mut l = Line::new("C12", &fam, "plan_exists");
+            l.b(exists).arrow();
+            l.n(retries.len()); for o in retries { l.b(o); }
+            l.emit();
+        }
         // scheduling: the same problem under other pool sizes and repeated
         if done % 2 == 0 {
             let mut l = Line::new("C12", &fam, "plan_sched");
